@@ -4,7 +4,8 @@ package server
 // table.  (a) the holder's hold is parked in the long-expiry table at once (persist-immediately
 // flag, E = 100 s), which moves the key's manager to the ordinary key map; (b) two keys share a
 // fast slot (4 slots here; keys 1 and 5), the second one lives in the ordinary map, the first is
-// released and swept.  A second request with Count 0 for the held key must be refused, and the
+// released and swept; (c) a neighbour key's manager is moved again while this key sits in their
+// common fast slot.  A second request with Count 0 for the held key must be refused, and the
 // holder's own unlock must still be accepted.
 
 import (
@@ -17,7 +18,30 @@ func vfH_C01_slowmap() {
 	env := vfNewEnv(2)
 	vfSetDBTime(env.db, vfBaseTime)
 	held := vfKey(1)
-	if vfChoice("shape", 2) == 0 {
+	shape := vfChoice("shape", 3)
+	if shape == 2 {
+		// key 1's manager is moved to the ordinary map, key 5 then takes their common fast slot; a
+		// second long-lived hold on key 1 runs the move again: it must leave key 5's slot alone
+		a := env.newCmd(protocol.COMMAND_LOCK, vfKey(1), vfLockId(1))
+		a.Expried, a.ExpriedFlag, a.Count = 100, 0x0100, 5
+		n := len(env.replies)
+		env.lock(0, a)
+		vfAssert(env.replies[n].result == protocol.RESULT_SUCCED, "C01: harness: lock not granted")
+		held = vfKey(5)
+		h := env.newCmd(protocol.COMMAND_LOCK, held, vfLockId(5))
+		h.Expried, h.ExpriedFlag = 100, 0x0200
+		n = len(env.replies)
+		env.lock(0, h)
+		vfAssert(env.replies[n].result == protocol.RESULT_SUCCED, "C01: harness: lock not granted")
+		m5 := env.manager(held)
+		vfAssert(m5 != nil && m5.fastKeyValue != nil && m5.fastKeyValue.manager == m5, "C01: harness: key 5 did not take the fast slot")
+		a2 := env.newCmd(protocol.COMMAND_LOCK, vfKey(1), vfLockId(2))
+		a2.Expried, a2.ExpriedFlag, a2.Count = 100, 0x0100, 5
+		n = len(env.replies)
+		env.lock(0, a2)
+		vfAssert(env.replies[n].result == protocol.RESULT_SUCCED, "C01: harness: second hold on the neighbour key not granted")
+		vfReach("neighbour")
+	} else if shape == 0 {
 		a := env.newCmd(protocol.COMMAND_LOCK, held, vfLockId(1))
 		a.Expried, a.ExpriedFlag = 100, 0x0100
 		n := len(env.replies)
